@@ -225,6 +225,7 @@ def vs_block(arg):
     r["case"] = case if r["violations"] else None
     r["len"] = len(case["hist"])
     r["sample"] = case
+    r["last"] = case["hist"][-1]["op"]
     return r
 
 
@@ -374,6 +375,8 @@ def tab_block(block):
     r["case"] = case if r["violations"] else None
     r["sample"] = case
     r["len"] = len(case["hist"])
+    r["last"] = case["hist"][-1]["op"]
+    r["acc"] = case["obs"].get("acc")
     return r
 
 
@@ -484,6 +487,7 @@ def csv_block(block):
     r["case"] = case if r["violations"] else None
     r["sample"] = case
     r["len"] = st["nread"]
+    r["last"] = case["hist"][-1]["kind"]
     return r
 
 
@@ -741,13 +745,44 @@ def tlc_many(specs):
         return [f.result() for f in futs]
 
 
-def g_finish(ctx, res, consts, name, blockfn, args_of, actions):
+SAMPLE_EVERY = 5  # every 5th replayed case travels back to the parent in full (self-tests, evidence samples)
+
+
+def chunk_worker(arg):
+    """One byte range of a TLC dump: split into states, replay each; results are slimmed before they are
+    pickled back (the full case is kept for violations and for every SAMPLE_EVERY-th state)."""
+    path, a, b, fname, extra, base = arg
+    with open(path, "rb") as f:
+        f.seek(a)
+        text = f.read(b - a).decode("ascii")
+    fn = globals()[fname]
+    out = []
+    for j, blk in enumerate(_STATE_HDR.split(text)[1:]):
+        r = fn(blk if extra is None else (blk, extra))
+        if r is None:
+            continue
+        if (base + j) % SAMPLE_EVERY:
+            r["sample"] = None
+        out.append(r)
+    return out
+
+
+def g_finish(ctx, res, consts, name, blockfn, extra, actions):
     fix_coverage(res)
     require_actions(res, actions)
     ctx.add_tlc(res, name, consts)
-    blocks = dump_blocks(res.dump_path)
-    out = [r for r in common.pmap(blockfn, [args_of(b) for b in blocks]) if r is not None]
+    with open(res.dump_path, "rb") as f:
+        data = f.read()
+    offs = [m.start() for m in re.finditer(rb"^State \d+:.*$|^STATE_\d+ ==.*$", data, re.M)] + [len(data)]
+    per = max(50, min(1500, (len(offs) - 1) // 128 + 1))
+    jobs = [(res.dump_path, offs[i], offs[min(i + per, len(offs) - 1)], blockfn.__name__, extra, i) for i in range(0, len(offs) - 1, per)]
+    out = [r for rs in common.pmap(chunk_worker, jobs, chunksize=1) for r in rs]
     return res, out
+
+
+def pick_sample(out, k):
+    full = [r["sample"] for r in out if r.get("sample")]
+    return full[len(full) // k] if full else None
 
 
 def collect(ctx, kind, out):
@@ -848,22 +883,22 @@ def run(ctx):
         ]
     R = tlc_many(specs)
     VS_ACT = ["AddValue", "AddRange", "Union", "MakeAny"]
-    res_vs, out_vs = g_finish(ctx, R[0], vs_consts, "ValueSets exhaustive", vs_block, lambda b: (b, n), VS_ACT)
-    res_tb, out_tb = g_finish(ctx, R[1], tb_consts, "ConstraintTable exhaustive", tab_block, lambda b: b, ["AddColumn", "Check", "Touch"])
-    res_c1, out_c1 = g_finish(ctx, R[2], cs1, "ConstraintCsv exhaustive (cells)", csv_block, lambda b: b, ["Read", "Touch"])
-    res_c2, out_c2 = g_finish(ctx, R[3], cs2, "ConstraintCsv exhaustive (rows)", csv_block, lambda b: b, ["Read", "Touch"])
-    kinds = set(r["sample"]["hist"][-1]["kind"] for r in out_c1 + out_c2)
+    res_vs, out_vs = g_finish(ctx, R[0], vs_consts, "ValueSets exhaustive", vs_block, n, VS_ACT)
+    res_tb, out_tb = g_finish(ctx, R[1], tb_consts, "ConstraintTable exhaustive", tab_block, None, ["AddColumn", "Check", "Touch"])
+    res_c1, out_c1 = g_finish(ctx, R[2], cs1, "ConstraintCsv exhaustive (cells)", csv_block, None, ["Read", "Touch"])
+    res_c2, out_c2 = g_finish(ctx, R[3], cs2, "ConstraintCsv exhaustive (rows)", csv_block, None, ["Read", "Touch"])
+    kinds = set(r["last"] for r in out_c1 + out_c2)
     guard(ctx, kinds == {"data", "comment", "blank", "touch"}, "vacuity: CSV row kinds replayed: %r" % (kinds,))
-    _, extra_vs = g_finish(ctx, R[4], vd_consts, "ValueSets exhaustive (object identity: longer histories)", vs_block, lambda b: (b, vd_consts["N"]), VS_ACT + (["New"] if vd_consts["Ctor"] == "TRUE" else []))
+    _, extra_vs = g_finish(ctx, R[4], vd_consts, "ValueSets exhaustive (object identity: longer histories)", vs_block, vd_consts["N"], VS_ACT + (["New"] if vd_consts["Ctor"] == "TRUE" else []))
     spec_selftest = {}
     for impl, r in zip(SHARE_IMPLS, R[5 : 5 + len(SHARE_IMPLS)]):
         if r.invariant_violated != "ContainsExactlyUnion":
             raise RuntimeError("spec self-test: ValueSets with UnionImpl=%s (a union handing out an operand) does not violate ContainsExactlyUnion (%r)" % (impl, r.invariant_violated))
         spec_selftest[impl] = "ContainsExactlyUnion violated after %d states" % r.generated
     if not ctx.quick:
-        _, o2 = g_finish(ctx, R[nbase], c2, "ValueSets exhaustive (deeper)", vs_block, lambda b: (b, 4), VS_ACT)
+        _, o2 = g_finish(ctx, R[nbase], c2, "ValueSets exhaustive (deeper)", vs_block, 4, VS_ACT)
         extra_vs += o2
-        _, o3 = g_finish(ctx, R[nbase + 1], c3, "ConstraintTable exhaustive (3 keys)", tab_block, lambda b: b, ["AddColumn", "Check", "Touch"])
+        _, o3 = g_finish(ctx, R[nbase + 1], c3, "ConstraintTable exhaustive (3 keys)", tab_block, None, ["AddColumn", "Check", "Touch"])
         out_tb += o3
         # random walks of the same spec over a larger universe; every step of every walk is compared
         walks = [(p, sim_n) for p in sorted(glob.glob(os.path.join(R[nbase + 2].sim_dir, "tr*")))]
@@ -874,12 +909,12 @@ def run(ctx):
     dis = collect(ctx, "vs", out_vs + extra_vs) + collect(ctx, "tab", out_tb) + collect(ctx, "csv", out_c1 + out_c2)
     ntr, tdis, tstats, tsamples = trace_direction(ctx)
 
-    hit = selftest_binding([r["sample"] for r in out_vs])
+    hit = selftest_binding([r["sample"] for r in out_vs if r["sample"]])
     guard(ctx, hit > 0, "binding self-test failed: an is_disjoint that ignores the other set's ranges was not detected")
-    hit_share = selftest_sharing([r["sample"] for r in out_vs if r["sample"]["hist"][-1]["op"] in ("add_value", "add_range") and any(o["op"] == "union" for o in r["sample"]["hist"])])
+    hit_share = selftest_sharing([r["sample"] for r in out_vs if r["sample"] and r["last"] in ("add_value", "add_range") and any(o["op"] == "union" for o in r["sample"]["hist"])])
     guard(ctx, hit_share > 0, "binding self-test failed: a union returning its left operand itself was not detected by later additions")
     njudged = sum(1 for r in out_tb if r.get("judged"))
-    guard(ctx, njudged > 0 and any(r["sample"]["obs"]["acc"] for r in out_tb if r.get("judged")) and not all(r["sample"]["obs"]["acc"] for r in out_tb if r.get("judged")), "vacuity: the table theorems were never exercised with both outcomes")
+    guard(ctx, njudged > 0 and any(r["acc"] for r in out_tb if r.get("judged")) and not all(r["acc"] for r in out_tb if r.get("judged")), "vacuity: the table theorems were never exercised with both outcomes")
     allg = out_vs + extra_vs + out_tb + out_c1 + out_c2
     ctx.coverage.update(
         {
@@ -896,7 +931,7 @@ def run(ctx):
             "bounds": {"valuesets": vs_consts, "tables": tb_consts, "csv_cells": cs1, "csv_rows": cs2, "note": "ranges have lo <= hi; inverted ranges, negative numbers in CSV and non-integer values are out of scope"},
             "spec_disagreements": dis,
             "binding_selftest": {"mutant": "ValueSet.is_disjoint that does not test the end points of the other set's ranges (in-process monkeypatch)", "histories_flagging_it": hit, "trace": "flipping a recorded is_disjoint result / acceptance flag / adding a column to a recorded table is rejected by clauses Disjoint / Incremental / CsvCells"},
-            "samples": [out_vs[len(out_vs) // 2]["sample"], out_tb[len(out_tb) // 2]["sample"], out_c1[len(out_c1) // 3]["sample"]] + tsamples,
+            "samples": [pick_sample(out_vs, 2), pick_sample(extra_vs, 2), pick_sample(out_tb, 2), pick_sample([r for r in out_tb if r.get("touch")], 2), pick_sample(out_c1, 3), pick_sample([r for r in out_c1 if r["last"] == "touch"], 3)] + tsamples,
         }
     )
     ctx.assumptions += [
